@@ -19,7 +19,7 @@ import (
 // are driven by a protocol loop (Get SDR, Get Channel Cipher Suites, Get DCMI Sensor Info)
 // have rule sets of their own (C14, C16) and are not judged here.
 func checkHelperRequests(c *Ctx, r *Report) {
-	r.Rule("helper-request-fields", "every field a library helper sets in a command it builds for the caller is a constant, one of the helper's parameters, or the same-named field of a value it was given; Close Session carries the session's RemoteID (the BMC's session ID)", 4)
+	r.Rule("helper-request-fields", "every field a library helper sets in a command it builds for the caller is a constant, one of the helper's parameters, or the same-named field of a value it was given; Close Session carries the session's RemoteID (the BMC's session ID)", 2)
 	cmdNamed := c.Named("pkg/ipmi", "Command")
 	if cmdNamed == nil {
 		r.Lost("ipmi.Command")
